@@ -42,6 +42,20 @@ theorem eq_congr (a b c : EVal) (h : eq a b = true) : eq a c = eq b c := by
 theorem nan_eq (c : Cell) : eq (.cell .nan) (.cell c) = (c == .nan) := by
   cases c <;> simp [eq, EVal.norm, eqN, cellEq]
 
+/-- NaT (`pd.NaT`, which `np.datetime64('NaT')` / `np.timedelta64('NaT')` are read as since C14-F6) equals exactly NaT: a copy of
+itself, and nothing else - not the float NaN, not `None` -/
+theorem nat_eq (b : EVal) : eq .nat b = true ↔ b = .nat := by
+  cases b <;> simp [eq, EVal.norm, eqN]
+
+/-- a duration (`timedelta`, `pd.Timedelta`, `np.timedelta64` of any unit) equals exactly the same duration: never a number
+(numpy's own `np.timedelta64(1, 'D') == 1` is gone with C14-F6), never a container -/
+theorem tdelta_eq (d : Int) (b : EVal) : eq (.tdelta d) b = true ↔ b = .tdelta d := by
+  cases b <;> simp [eq, EVal.norm, eqN] <;> exact eq_comm
+
+/-- a date equals exactly that date: not the datetime (`Timestamp`, `np.datetime64` of any unit) at its midnight -/
+theorem date_eq (d : Int) (b : EVal) : eq (.date d) b = true ↔ b = .date d := by
+  cases b <;> simp [eq, EVal.norm, eqN] <;> exact eq_comm
+
 /-- type strictness: `eq` is False whenever the container types differ — list vs tuple vs array vs
 Series vs DataFrame vs dict, a dict vs a dict subclass (or two different subclasses), and a scalar
 vs any container (`EVal.kind` = constructor and dict class). -/
@@ -200,6 +214,9 @@ example : ¬ Same (.arr [2, 1] [i 1, i 2]) (.arr [1, 2] [i 1, i 2]) :=
 example : eq (.arr [2, 1] [i 1, i 2]) (.arr [1, 2] [i 1, i 2]) = false := by decide
 example : eq (.series [.int 0, .int 1] [i 1, i 2]) (.series [.int 1, .int 2] [i 1, i 2]) = false := by decide
 example : eq (.frame [.int 0] [.str "a"] [i 1]) (.frame [.int 0] [.str "b"] [i 1]) = false := by decide
+-- NaT inside containers: a structural copy is eq; NaT is not NaN
+example : eq (.arr [2] [.cell (.dt 5), .nat]) (.arr [2] [.cell (.dt 5), .nat]) = true := by decide
+example : eq .nat (.cell .nan) = false ∧ eq (.cell .nan) .nat = false ∧ eq (.tdelta 1) (.cell (.int 1)) = false := by decide
 -- a date is not the datetime at its midnight
 example : eq (.date 5) (.cell (.dt 5)) = false := by decide
 -- the hypotheses of eq_agrees_pyeq / eq_agrees_pyeq_seq, and an instance with reordered dict items
